@@ -83,6 +83,15 @@ def make_system(cx, N, Nt, kind, nb=1, cplxH=False):
         RT.is_time_dependent = True
         extra = dict(Rt=data)
         gen = None
+    elif kind == "td_operators":
+        # the real time-dependent Redfield tensor in operator form (K_m symbolic, bath integrals = spline stub)
+        from harness.common import set_symmetric_K
+        set_symmetric_K(cx, sbi, N)
+        if cx.sym:
+            from symnum import linalg
+            linalg.use_eigh(eigen_equation=False)
+        RT = TDRedfieldRelaxationTensor(ham, sbi, as_operators=True)
+        gen = None
     return ham, time, RT, H, gen, extra
 
 
